@@ -1,6 +1,6 @@
 /-
 Refinement of the document-level specification `Spec.EditDoc` by the dispatcher model
-`Model.EditDoc` (for `C07_output_eq_edit_spec_partial`).
+`EditModel.EditDoc` (for `C07_output_eq_edit_spec_partial`).
 -/
 import LolHtml.Lemmas.Edit
 import LolHtml.Lemmas.EditElementOps
@@ -326,7 +326,7 @@ theorem Sim.active {H : List Handler} {enc : Enc} {ms : St} {ss : SpecSt} (h : S
 
 theorem Sim.anyActive {H : List Handler} {enc : Enc} {ms : St} {ss : SpecSt} (h : Sim H enc ms ss)
     (kind : Script → Bool) : anyActive H kind ms.counts = anyOfKind H ss kind := by
-  unfold Model.anyActive anyOfKind
+  unfold EditModel.anyActive anyOfKind
   congr 1
   funext i
   cases hh : H[i]? with
@@ -415,9 +415,9 @@ theorem flush_sim {H : List Handler} {enc : Enc} {ms : St} {ss : SpecSt} (h : Si
 
 theorem step_text_sim {H : List Handler} {enc : Enc} {ms : St} {ss : SpecSt} (h : Sim H enc ms ss)
     (raw : Bytes) :
-    Sim H enc (Model.step H enc ms (.text raw)).1 (Spec.EditDoc.step H enc ss (.text raw)).1
-      ∧ (Model.step H enc ms (.text raw)).2 = (Spec.EditDoc.step H enc ss (.text raw)).2 := by
-  simp only [Model.step, Spec.EditDoc.step]
+    Sim H enc (EditModel.step H enc ms (.text raw)).1 (Spec.EditDoc.step H enc ss (.text raw)).1
+      ∧ (EditModel.step H enc ms (.text raw)).2 = (Spec.EditDoc.step H enc ss (.text raw)).2 := by
+  simp only [EditModel.step, Spec.EditDoc.step]
   rw [h.anyActive]
   by_cases ha : anyOfKind H ss Script.isText = true
   · rw [if_pos ha, if_pos ha]
@@ -429,9 +429,9 @@ theorem step_text_sim {H : List Handler} {enc : Enc} {ms : St} {ss : SpecSt} (h 
 
 theorem step_comment_sim {H : List Handler} {enc : Enc} {ms : St} {ss : SpecSt} (h : Sim H enc ms ss)
     (text raw : Bytes) :
-    Sim H enc (Model.step H enc ms (.comment text raw)).1 (Spec.EditDoc.step H enc ss (.comment text raw)).1
-      ∧ (Model.step H enc ms (.comment text raw)).2 = (Spec.EditDoc.step H enc ss (.comment text raw)).2 := by
-  simp only [Model.step, Spec.EditDoc.step]
+    Sim H enc (EditModel.step H enc ms (.comment text raw)).1 (Spec.EditDoc.step H enc ss (.comment text raw)).1
+      ∧ (EditModel.step H enc ms (.comment text raw)).2 = (Spec.EditDoc.step H enc ss (.comment text raw)).2 := by
+  simp only [EditModel.step, Spec.EditDoc.step]
   obtain ⟨hf, hfo, _, _⟩ := flush_sim h
   generalize flushPendingText H enc ms = fm at hf hfo
   generalize flushText H enc ss = fs at hf hfo
@@ -453,9 +453,9 @@ theorem step_comment_sim {H : List Handler} {enc : Enc} {ms : St} {ss : SpecSt} 
 
 theorem step_doctype_sim {H : List Handler} {enc : Enc} {ms : St} {ss : SpecSt} (h : Sim H enc ms ss)
     (raw : Bytes) :
-    Sim H enc (Model.step H enc ms (.doctype raw)).1 (Spec.EditDoc.step H enc ss (.doctype raw)).1
-      ∧ (Model.step H enc ms (.doctype raw)).2 = (Spec.EditDoc.step H enc ss (.doctype raw)).2 := by
-  simp only [Model.step, Spec.EditDoc.step]
+    Sim H enc (EditModel.step H enc ms (.doctype raw)).1 (Spec.EditDoc.step H enc ss (.doctype raw)).1
+      ∧ (EditModel.step H enc ms (.doctype raw)).2 = (Spec.EditDoc.step H enc ss (.doctype raw)).2 := by
+  simp only [EditModel.step, Spec.EditDoc.step]
   obtain ⟨hf, hfo, _, _⟩ := flush_sim h
   generalize flushPendingText H enc ms = fm at hf hfo
   generalize flushText H enc ss = fs at hf hfo
@@ -705,11 +705,11 @@ theorem register_sim {H : List Handler} {enc : Enc} {ms1 : St} {ss1 : SpecSt} (h
 
 theorem stepStartTag_sim {H : List Handler} {enc : Enc} {ms : St} {ss : SpecSt} (h : Sim H enc ms ss)
     (name : Bytes) (attrs : List Attribute) (sc : Bool) (ns : Ns) (raw : Bytes) :
-    Sim H enc (Model.step H enc ms (.startTag name attrs sc ns raw)).1
+    Sim H enc (EditModel.step H enc ms (.startTag name attrs sc ns raw)).1
         (Spec.EditDoc.step H enc ss (.startTag name attrs sc ns raw)).1
-      ∧ (Model.step H enc ms (.startTag name attrs sc ns raw)).2
+      ∧ (EditModel.step H enc ms (.startTag name attrs sc ns raw)).2
         = (Spec.EditDoc.step H enc ss (.startTag name attrs sc ns raw)).2 := by
-  simp only [Model.step, Spec.EditDoc.step]
+  simp only [EditModel.step, Spec.EditDoc.step]
   unfold stepStartTag
   simp only
   obtain ⟨hf, hfo, _, _⟩ := flush_sim h
@@ -1440,10 +1440,10 @@ theorem stepEndTag_sim {H : List Handler} {enc : Enc} {ms : St} {ss : SpecSt} (h
     (name raw : Bytes)
     (hunt : ∀ idx, ss.openEls.findIdx? (fun o => o.lname == asciiLowerBytes name) = some idx →
       ∀ o ∈ ss.openEls.take idx, elHasEndEdits enc o = false) :
-    Sim H enc (Model.step H enc ms (.endTag name raw)).1 (Spec.EditDoc.step H enc ss (.endTag name raw)).1
-      ∧ (Model.step H enc ms (.endTag name raw)).2 = (Spec.EditDoc.step H enc ss (.endTag name raw)).2 := by
+    Sim H enc (EditModel.step H enc ms (.endTag name raw)).1 (Spec.EditDoc.step H enc ss (.endTag name raw)).1
+      ∧ (EditModel.step H enc ms (.endTag name raw)).2 = (Spec.EditDoc.step H enc ss (.endTag name raw)).2 := by
   have hrinvFinal := (stepEndTag_spec H enc ms name raw h.rinv).1
-  simp only [Model.step, Spec.EditDoc.step] at hrinvFinal ⊢
+  simp only [EditModel.step, Spec.EditDoc.step] at hrinvFinal ⊢
   unfold stepEndTag at hrinvFinal ⊢
   simp only at hrinvFinal ⊢
   obtain ⟨hf, hfo, _, hopen⟩ := flush_sim h
@@ -1587,8 +1587,8 @@ theorem stepEndTag_sim {H : List Handler} {enc : Enc} {ms : St} {ss : SpecSt} (h
 
 theorem step_sim {H : List Handler} {enc : Enc} {ms : St} {ss : SpecSt} (h : Sim H enc ms ss)
     (tok : SrcToken) (hn : (!implicitHere enc ss tok) = true) :
-    Sim H enc (Model.step H enc ms tok).1 (Spec.EditDoc.step H enc ss tok).1
-      ∧ (Model.step H enc ms tok).2 = (Spec.EditDoc.step H enc ss tok).2 := by
+    Sim H enc (EditModel.step H enc ms tok).1 (Spec.EditDoc.step H enc ss tok).1
+      ∧ (EditModel.step H enc ms tok).2 = (Spec.EditDoc.step H enc ss tok).2 := by
   cases tok with
   | text raw => exact step_text_sim h raw
   | comment t raw => exact step_comment_sim h t raw
@@ -1602,8 +1602,8 @@ theorem step_sim {H : List Handler} {enc : Enc} {ms : St} {ss : SpecSt} (h : Sim
 
 theorem steps_sim {H : List Handler} {enc : Enc} (toks : List SrcToken) {ms : St} {ss : SpecSt}
     (h : Sim H enc ms ss) (hn : cleanRun H enc ss toks = true) :
-    Sim H enc (Model.steps H enc ms toks).1 (Spec.EditDoc.steps H enc ss toks).1
-      ∧ (Model.steps H enc ms toks).2.flatten = (Spec.EditDoc.steps H enc ss toks).2
+    Sim H enc (EditModel.steps H enc ms toks).1 (Spec.EditDoc.steps H enc ss toks).1
+      ∧ (EditModel.steps H enc ms toks).2.flatten = (Spec.EditDoc.steps H enc ss toks).2
       ∧ (Spec.EditDoc.steps H enc ss toks).1.openEls.any (elHasEndEdits enc) = false := by
   induction toks generalizing ms ss with
   | nil =>
@@ -1613,7 +1613,7 @@ theorem steps_sim {H : List Handler} {enc : Enc} (toks : List SrcToken) {ms : St
     simp only [cleanRun, Bool.and_eq_true] at hn
     have h1 := step_sim h t hn.1
     have h2 := ih h1.1 hn.2
-    simp only [Model.steps, Spec.EditDoc.steps, List.flatten_cons]
+    simp only [EditModel.steps, Spec.EditDoc.steps, List.flatten_cons]
     exact ⟨h2.1, by rw [h1.2, h2.2.1], h2.2.2⟩
 
 theorem Sim_init (H : List Handler) (enc : Enc) : Sim H enc (St.init H) {} :=
@@ -1623,11 +1623,11 @@ theorem Sim_init (H : List Handler) (enc : Enc) : Sim H enc (St.init H) {} :=
 /-- **Refinement**: on well-nested runs the dispatcher model produces the documented edit. -/
 theorem rewrite_refines (H : List Handler) (enc : Enc) (toks : List SrcToken)
     (hn : cleanRun H enc {} toks = true) :
-    (Model.rewrite H enc toks).2 = Spec.EditDoc.rewrite H enc toks
-      ∧ (Model.rewrite H enc toks).1.fault = false ∧ (Model.rewrite H enc toks).1.faultRemoved = false := by
+    (EditModel.rewrite H enc toks).2 = Spec.EditDoc.rewrite H enc toks
+      ∧ (EditModel.rewrite H enc toks).1.fault = false ∧ (EditModel.rewrite H enc toks).1.faultRemoved = false := by
   obtain ⟨hs, ho, hclean⟩ := steps_sim toks (Sim_init H enc) hn
   obtain ⟨hf, hfo, _, hopen⟩ := flush_sim hs
-  unfold Model.rewrite Spec.EditDoc.rewrite Model.finish
+  unfold EditModel.rewrite Spec.EditDoc.rewrite EditModel.finish
   simp only
   rw [ho, hfo, hf.inv, closeAllImplicit_nil_of_clean enc _ _ [] (by rw [hopen]; exact hclean)]
   refine ⟨by simp [List.append_assoc], hf.nofault, hf.rinv.noUnderflow⟩
